@@ -47,7 +47,7 @@ fn decode_adv(u: &mut Unstructured) -> c12::AdvHistory {
     let flags = u.arbitrary::<u8>().unwrap_or(0);
     let mut reqs = vec![];
     while !u.is_empty() && reqs.len() < 48 {
-        let op = u.arbitrary::<u8>().unwrap_or(0) % 12;
+        let op = u.arbitrary::<u8>().unwrap_or(0) % 13;
         match op {
             0..=4 => {
                 let b = u.arbitrary::<u8>().unwrap_or(0);
@@ -63,6 +63,7 @@ fn decode_adv(u: &mut Unstructured) -> c12::AdvHistory {
             5 | 6 => reqs.push(c12::AdvReq::RemoveCurrent { sel: u.arbitrary::<u16>().unwrap_or(0) }),
             7 | 8 => reqs.push(c12::AdvReq::RemoveIssued { sel: u.arbitrary::<u16>().unwrap_or(0) }),
             9 => reqs.push(c12::AdvReq::RemoveUnknown { beyond: u.arbitrary::<u8>().unwrap_or(0) % 4 }),
+            11 => reqs.push(c12::AdvReq::RemoveBurst { sel: u.arbitrary::<u16>().unwrap_or(0), count: 2 + u.arbitrary::<u8>().unwrap_or(0) % 60 }),
             _ => reqs.push(c12::AdvReq::Close { strat: strat(u.arbitrary::<u8>().unwrap_or(0)) }),
         }
     }
